@@ -148,6 +148,8 @@ pub enum Ev {
     Lookup(usize),
     Advance(i64),
     AdvanceNoSweep,
+    /// a decision learned from traffic (switch mode): address index, peer
+    Learn(usize, usize),
 }
 
 pub fn peer_addr(p: usize) -> SocketAddr {
@@ -202,6 +204,9 @@ pub fn universe(family: &str) -> (Vec<Range>, Vec<Address>) {
 
 /// claim subsets an announcement can carry (indices into the universe)
 pub const SUBSETS: [&[usize]; 6] = [&[], &[1], &[2, 3], &[0, 4], &[5, 1], &[1, 2, 3, 4]];
+
+/// `claim` of a decision that was learned from traffic instead of derived from a claim
+const LEARNED: usize = usize::MAX;
 
 #[derive(Clone, Debug)]
 struct Decision {
@@ -276,7 +281,7 @@ impl M {
                 continue;
             }
             let within = s.now <= d.at + SWITCH_TO || d.at + SWITCH_TO >= s.last_sweep; // one sweep of slack
-            let claim_ok = self.live_strict(s, d.peer, d.claim) || self.slack(s, d.peer, d.claim);
+            let claim_ok = d.claim == LEARNED || self.live_strict(s, d.peer, d.claim) || self.slack(s, d.peer, d.claim);
             // (decisions made before a withdrawal / disconnect of their peer were deleted from the list at that event)
             if within && claim_ok && !out.contains(&Some(d.peer)) {
                 out.push(Some(d.peer));
@@ -321,6 +326,11 @@ impl Model for M {
         v.push(Ev::AdvanceNoSweep);
         for p in 0..3 {
             v.push(Ev::Disconnect(p));
+        }
+        for a in 0..2 {
+            for p in 0..3 {
+                v.push(Ev::Learn(a, p));
+            }
         }
         v
     }
@@ -394,6 +404,13 @@ impl Model for M {
             Ev::AdvanceNoSweep => {
                 s.now += 1;
                 MockTimeSource::set_time(s.now);
+            }
+            Ev::Learn(a, p) => {
+                // learned from a frame of peer p: good for the switch timeout and for as long as p stays (a disconnect or a
+                // shrinking re-announcement of p deletes it from the list like any other decision of p)
+                s.table.cache(s.addrs[*a], peer_addr(*p));
+                s.decisions.retain(|d| !(d.addr == *a && d.peer == *p && d.claim == LEARNED));
+                s.decisions.push(Decision { addr: *a, peer: *p, claim: LEARNED, at: s.now });
             }
         }
         // forget decisions that can no longer matter
